@@ -162,7 +162,9 @@ func (c *FnCtx) convertTo(st *State, v Val, from, to types.Type) Val {
 				return Val{K: KStr, S: s, T: to}
 			}
 			if v.K == KInt {
+				// string(c) for a byte/rune value: a one-character string (ASCII range is exact)
 				s := c.fresh("str", "Str")
+				c.assume(st, sImp(sAnd(sx("<=", "0", v.S), sx("<", v.S, "128")), sAnd(sx("=", sx("slen", s), "1"), sx("=", sx("sat", s, "0"), v.S))))
 				return Val{K: KStr, S: s, T: to}
 			}
 		}
